@@ -2375,3 +2375,17 @@ V('c02-silence-twin-get', 'C02', 'R2.8', SEL,
   '            _, msg_flags = flags_key_map[msg.uid]',
   '            _uid, msg_flags = self._messages._flags_key_map[msg.uid]',
   expect='silent')
+V('c04-maildir-move-keeps-source-record', 'C04', 'R4.6', MAILDIRMBX,
+  '''        if destination is not self:
+            # The key moves with the file, the old record would become valid
+            # again if the message is ever moved back.
+            async with UidList.with_write(self._path) as uidl:
+                try:
+                    uidl.remove(uid)
+                except KeyError:
+                    pass
+''', '')
+V('c04-maildir-selfmove-keeps-record', 'C04', 'R4.6', MAILDIRMBX,
+  '''            if destination is self:
+                uidl.remove(uid)
+''', '')
